@@ -106,9 +106,20 @@ Definition build_from_rule (r : nrule) : nbuild :=
      nb_always := nr_always r |}.
 
 (* ninja::alias / alias_multiple *)
-Definition alias (input alias_name : str) : str :=
-  show_build {| nb_rule := S_ "phony"; nb_inputs := Some [input]; nb_outs := [alias_name];
-                nb_deps := None; nb_env := None; nb_always := false |}.
+Definition alias_build (input alias_name : str) : nbuild :=
+  {| nb_rule := S_ "phony"; nb_inputs := Some [input]; nb_outs := [alias_name];
+     nb_deps := None; nb_env := None; nb_always := false |}.
+Definition alias_multiple_build (inputs : list str) (alias_name : str) : nbuild :=
+  {| nb_rule := S_ "phony"; nb_inputs := Some inputs; nb_outs := [alias_name];
+     nb_deps := None; nb_env := None; nb_always := false |}.
+Definition alias (input alias_name : str) : str := show_build (alias_build input alias_name).
 Definition alias_multiple (inputs : list str) (alias_name : str) : str :=
-  show_build {| nb_rule := S_ "phony"; nb_inputs := Some inputs; nb_outs := [alias_name];
-                nb_deps := None; nb_env := None; nb_always := false |}.
+  show_build (alias_multiple_build inputs alias_name).
+
+(* the entries of a build's statement set: rule blocks and build statements. The code keeps
+   their printed text in an IndexSet<String>; the model keeps the structure next to the text
+   (two entries are the same entry iff their text is equal) *)
+Inductive stmt := SRule (r : nrule) | SBuild (b : nbuild).
+Definition show_stmt (s : stmt) : str := match s with SRule r => show_rule r | SBuild b => show_build b end.
+Definition sset_insert (s : stmt) (l : list stmt) : list stmt :=
+  if existsb (fun x => str_eqb (show_stmt x) (show_stmt s)) l then l else l ++ [s].
